@@ -637,6 +637,115 @@ func ruleAnnotatePreserves(c *Ctx) {
 			}
 		}
 	}
+	// a list written back into the configuration has an element for every element it replaces: every iteration
+	// of the loop that fills it writes one (no `continue` in front of the write)
+	for _, f := range c.P.allFuncs {
+		if !inPkg(f, "server") {
+			continue
+		}
+		for _, b := range f.Blocks {
+			for _, in := range b.Instrs {
+				st, ok := in.(*ssa.Store)
+				if !ok {
+					continue
+				}
+				fa, ok := st.Addr.(*ssa.FieldAddr)
+				if !ok {
+					continue
+				}
+				fv := faField(fa)
+				if fv.Pkg() == nil || fv.Pkg().Path() != pkgPath("config") {
+					continue
+				}
+				if _, isSlice := fv.Type().Underlying().(*types.Slice); !isSlice {
+					continue
+				}
+				// the slice value and everything it was built from
+				alias := map[ssa.Value]bool{}
+				var grow func(v ssa.Value, d int)
+				grow = func(v ssa.Value, d int) {
+					if d > 8 || alias[v] {
+						return
+					}
+					alias[v] = true
+					switch x := v.(type) {
+					case *ssa.Phi:
+						for _, e := range x.Edges {
+							grow(e, d+1)
+						}
+					case *ssa.Call:
+						if bi, ok := x.Call.Value.(*ssa.Builtin); ok && bi.Name() == "append" {
+							grow(x.Call.Args[0], d+1)
+						}
+					case *ssa.Slice:
+						grow(x.X, d+1)
+					}
+				}
+				grow(st.Val, 0)
+				var writes []*ssa.BasicBlock
+				for v := range alias {
+					if v.Referrers() == nil {
+						continue
+					}
+					for _, r := range *v.Referrers() {
+						switch x := r.(type) {
+						case *ssa.IndexAddr:
+							for _, rr := range *x.Referrers() {
+								if s2, ok := rr.(*ssa.Store); ok && s2.Addr == ssa.Value(x) {
+									writes = append(writes, s2.Block())
+								}
+							}
+						case *ssa.Call:
+							if bi, ok := x.Call.Value.(*ssa.Builtin); ok && bi.Name() == "append" && x.Call.Args[0] == v {
+								writes = append(writes, x.Block())
+							}
+						}
+					}
+				}
+				if len(writes) == 0 {
+					continue
+				}
+				n++
+				// the innermost loop around the writes: the closest header that dominates a write and has a back edge
+				// from a block the write can reach
+				var header *ssa.BasicBlock
+				for _, h := range f.Blocks {
+					if !isLoopHeader(h) || !(h == writes[0] || h.Dominates(writes[0])) {
+						continue
+					}
+					inLoopOfH := false
+					for _, p := range h.Preds {
+						if h.Dominates(p) && reaches(writes[0], p, map[*ssa.BasicBlock]bool{h: true}) {
+							inLoopOfH = true
+						}
+					}
+					if !inLoopOfH {
+						continue
+					}
+					if header == nil || header.Dominates(h) {
+						header = h
+					}
+				}
+				if header == nil {
+					continue
+				}
+				for _, p := range header.Preds {
+					if !header.Dominates(p) {
+						continue
+					}
+					covered := false
+					for _, w := range writes {
+						if w == p || w.Dominates(p) {
+							covered = true
+						}
+					}
+					if !covered {
+						bad = append(bad, fmt.Sprintf("%s: %s rebuilds the configuration's %s with a loop in which an iteration can finish without writing its element: entries are dropped from what the admin API returns (and from what is saved next)", c.P.pos(p.Instrs[len(p.Instrs)-1].Pos()), funcName(f), fv.Name()))
+					}
+				}
+			}
+		}
+	}
 	if n == 0 {
 		c.ok("annotate-preserves", "server", "server/admin.go", "no admin handler writes configuration entries back", 1)
 		return
